@@ -220,14 +220,16 @@ def setLocalImplicit (pc : Pc) (km : List (Kind × String)) : Res × Pc :=
     | .created d => applyLocal pc d
     | e => (e, pc)
 
-/-- `setRemoteDescription(sessionDescription)` (no `__assertNotClosed` in the real code: the
-closed state is rejected by the state table, for offers and answers). -/
+/-- `setRemoteDescription(sessionDescription)`: the closed state is rejected by the state table for
+offers and answers, and by the `__assertNotClosed()` that follows the application of the media
+sections (before any signalling state or description is touched) for every other type. -/
 def setRemote (pc : Pc) (d : Desc) : Res × Pc :=
   if d.type == .invalid then (.valueError, pc)
   else match validate pc d false with
   | some e => (e, pc)
   | none =>
     -- (apply media sections, bundle, candidates: outside the model)
+    if pc.isClosed then (.invalidState, pc) else
     let pc1 := match d.type with
       | .offer => pc.setSig .haveRemoteOffer
       | .answer => pc.setSig .stable
